@@ -1048,6 +1048,28 @@ func dialFailed(w *world.World, addr string) bool {
 func c20Scenarios(tier string) []*world.Scenario {
 	out := c20Reparent()
 	out = append(out, c20BanRecovery(0, tier), c20BanRecovery(1, tier))
+	// the node description lists replicas BEFORE their masters (CLUSTER NODES output has no particular order): every
+	// replica still serves reads
+	for nrep := 2; nrep <= 3; nrep++ {
+		sc := c20TrafficMix(nrep, "R", 4)
+		var reps, masters []world.NodeSpec
+		for _, n := range sc.Nodes {
+			if n.Master != "" {
+				reps = append(reps, n)
+			} else {
+				masters = append(masters, n)
+			}
+		}
+		// replica, master C, replica, master A, replica..., master B
+		var order []world.NodeSpec
+		order = append(order, reps[0], masters[2])
+		order = append(order, reps[1:]...)
+		order = append(order, masters[0], masters[1])
+		sc.Nodes = order
+		sc.Family = "replicas-listed-first"
+		sc.Name = fmt.Sprintf("C20/replicas-listed-before-masters/%drep", nrep)
+		out = append(out, sc)
+	}
 	for _, pat := range []string{"WR", "PR", "OR", "RW", "WWR", "WRR", "PWR", "RPR", "WPWR", "WRWWR"} {
 		out = append(out, c20TrafficMix(2, pat, 4))
 		if len(pat) <= 3 || tier == "thorough" {
